@@ -13,14 +13,17 @@ structure Stages where
   lowered : List Dir               -- EMIT_LOWERED_INSTS
   optimised : List Dir             -- EMIT_OPTIMISED_INSTS
 
-/-- The front half: up to the directive list handed to `hexasm::CodeGen`. -/
-def stages (P : X.Program) : Except CDiag Stages := do
-  let tbl ← createSymbols P
+/-- The front half: up to the directive list handed to `hexasm::CodeGen`; `j` is the content of
+    every uninitialised `Symbol::stackOffset`. -/
+def stagesJ (j : Int) (P : X.Program) : Except CDiag Stages := do
+  let tbl ← createSymbolsJ j P
   let A ← constProp tbl P
   let A' := optimise A
   let cg ← codeGen tbl A'
   let lowered := lower cg
   pure { cg := cg, lowered := lowered, optimised := peephole lowered }
+
+def stages (P : X.Program) : Except CDiag Stages := stagesJ 0 P
 
 /-- The directive list handed to the assembler. -/
 def compileDirs (P : X.Program) : Except CDiag (List Dir) := do
